@@ -10,14 +10,16 @@ Definition tris_eqb : list tri -> list tri -> bool := list_eqb tri_eqb.
 
 (* --- new query system ------------------------------------------------------------------------------ *)
 (* formula case: (n atoms, formula, observed table through the real visitor, observed operands) *)
-Definition pcase := (nat * form * list tri * cnf)%type.
+(* the observed operands are present only when small and when the identity flags were observed *)
+Definition pcase := (nat * form * list tri * option cnf)%type.
 Definition chk_form_table (c : pcase) : bool :=
   let '(n, f, tv, _) := c in tris_eqb (table n (build f)) tv.
 Definition chk_form_shape (c : pcase) : bool :=
-  let '(_, f, _, ops) := c in cnf_eqb (build f) ops.
+  let '(_, f, _, ops) := c in match ops with Some o => cnf_eqb (build f) o | None => true end.
+Definition chk_form_all (c : pcase) : bool := chk_form_table c && chk_form_shape c.
 
 (* single n-ary operation on observed operands: op 0 = and, 1 = or, 2 = not *)
-Definition scase := (nat * N * cnf * list (bool * cnf) * list tri * cnf)%type.
+Definition scase := (nat * N * cnf * list (bool * cnf) * list tri * option cnf)%type.
 Definition step_model (op : N) (self : cnf) (args : list (bool * cnf)) : cnf :=
   match op with
   | 0%N => p_and self args
@@ -27,7 +29,9 @@ Definition step_model (op : N) (self : cnf) (args : list (bool * cnf)) : cnf :=
 Definition chk_step_table (c : scase) : bool :=
   let '(n, op, self, args, tv, _) := c in tris_eqb (table n (step_model op self args)) tv.
 Definition chk_step_shape (c : scase) : bool :=
-  let '(_, op, self, args, _, res) := c in cnf_eqb (step_model op self args) res.
+  let '(_, op, self, args, _, res) := c in
+  match res with Some r => cnf_eqb (step_model op self args) r | None => true end.
+Definition chk_step_all (c : scase) : bool := chk_step_table c && chk_step_shape c.
 
 (* --- legacy query system --------------------------------------------------------------------------- *)
 (* (n atoms, form (true = CNF), input tree, observed table of toTree(), observed _nodes, observed toTree()) *)
@@ -47,3 +51,4 @@ Definition chk_nf_shape (c : ncase) : bool :=
                && match to_tree form ns with Some t' => ltree_eqb t' tree | None => false end
   | None => false
   end.
+Definition chk_nf_all (c : ncase) : bool := chk_nf_table c && chk_nf_shape c.
